@@ -204,3 +204,11 @@ MUTANTS += [
     dict(id="x17-split-at-status-from-unwrap-or-one", base="benign3/C17/B.diff", fires=["C17", "C02", "C03"], key="final-length", edits=[("src/ctap2.rs",
          "buffer.truncate(Self::HEADER_LEN + body_len.unwrap_or(0));", "buffer.truncate(Self::HEADER_LEN + body_len.unwrap_or(1));")]),
 ]
+
+# mutated refactorings of the iterator-chain loop that assembles the public key
+MUTANTS += [
+    dict(id="x09-chain-push-unchecked", base="benign2/C09/B.diff", fires=["C09"], key="propagated", edits=[("src/ctap1.rs",
+         "response.public_key.push(byte).unwrap();", "response.public_key.push(byte).ok();")]),
+    dict(id="x09-chain-skips-zero-bytes", base="benign2/C09/B.diff", fires=["C09"], key="new", edits=[("src/ctap1.rs",
+         "response.public_key.push(byte).unwrap();", "if byte != 0 {\n                    response.public_key.push(byte).unwrap();\n                }")]),
+]
